@@ -273,6 +273,31 @@ fn main() {
         });
         total.merge(rep);
     }
+    // ---- bytes: duplicate and extreme needle values
+    for (vi, ndv) in [[b'a', b'a', b'b'], [b'a', b'b', b'a'], [b'b', b'a', b'a'], [b'a', b'a', b'a'], [0xff, 0x7f, 0x00], [0x80, 0x80, 0x7f]].iter().enumerate() {
+        for len in 0..=8usize {
+            let n = enumr::pow(3, len as u32);
+            let rep = par::run_chunks(n, 2048, |lo, hi, r| {
+                let mut ar = Arena::plain(2);
+                let mut acc = Acc { digest: 0 };
+                let mut data = vec![0u8; len];
+                enumr::for_strings(3, len, lo, hi, |idx, roles| {
+                    for i in 0..len {
+                        // role 0: a byte that is none of the needles; 1, 2: the first / last needle
+                        data[i] = match roles[i] {
+                            0 => ndv[0] ^ 0x15,
+                            1 => ndv[0],
+                            _ => ndv[2],
+                        };
+                    }
+                    let hay = ar.place_fill(512 + (idx as usize % 4), &data, ndv[0], ndv[0], 64);
+                    bytes_case(r, &mut acc, (7 << 60) | ((vi as u64) << 50) | ((len as u64) << 40) | idx, hay, *ndv);
+                });
+                digest.fetch_xor(acc.digest, std::sync::atomic::Ordering::Relaxed);
+            });
+            total.merge(rep);
+        }
+    }
     // ---- bytes: sparse at real vector widths, every start offset mod 64
     let lmax = args.num("lsparse", if thorough { 320 } else { 200 }) as usize;
     let lens: Vec<usize> = (0..=lmax).collect();
